@@ -604,8 +604,8 @@ pub fn run_same_query_n(prog: &Program, cfg: &RunCfg, n: usize) -> Vec<SeedRun> 
 }
 
 /// Two iterators of queries that are alive at the same time: query A and query B are built (A first),
-/// iterator 1 of B yields `k` answers, then A is run to the end (or the cap), then a SECOND iterator
-/// of B is started and exhausted, then iterator 1 is continued to its end. Returns (answers of
+/// iterator 1 of B yields `k` answers, then a SECOND iterator of B is started and exhausted, then the
+/// older query A is run to the end (or the cap), then iterator 1 is continued to its end. Returns (answers of
 /// iterator 1, answers of iterator 2 of B). Each must be what B yields when run alone.
 pub fn run_query_interleaved(prog_a: &Program, prog_b: &Program, cfg: &RunCfg, k: usize) -> (SeedRun, SeedRun) {
     trace("run_query_interleaved", prog_b);
@@ -635,14 +635,6 @@ pub fn run_query_interleaved(prog_a: &Program, prog_b: &Program, cfg: &RunCfg, k
                 }
             }
         }
-        // the older query is run while iterator 1 is suspended
-        let mut n = 0;
-        for _res in query_a.run_with_user(Mon::default(), ()) {
-            n += 1;
-            if n >= cfg.max_answers {
-                break;
-            }
-        }
         // a second iterator of the same query value
         let mut it2 = query_b.run_with_user(Mon::default(), ());
         while a2.borrow().len() < cfg.max_answers {
@@ -652,6 +644,14 @@ pub fn run_query_interleaved(prog_a: &Program, prog_b: &Program, cfg: &RunCfg, k
                     ended.borrow_mut().1 = true;
                     break;
                 }
+            }
+        }
+        // the older query is run while iterator 1 is suspended
+        let mut n = 0;
+        for _res in query_a.run_with_user(Mon::default(), ()) {
+            n += 1;
+            if n >= cfg.max_answers {
+                break;
             }
         }
         if !ended.borrow().0 {
